@@ -432,6 +432,32 @@ func c08Run(b *core.B) {
 		g.noKey = !keyed || it.isMap
 		g.noBreak = it.isMap
 		body := g.body(2, len(it.elems), single)
+		mapBreak := false
+		if it.isMap && r.Chance(1, 3) {
+			// break in a map loop: visiting order is unspecified, but an
+			// unconditional break after order-independent statements must end
+			// the loop after exactly one iteration
+			mapBreak = true
+			pre := []lStmt{}
+			for j := r.Range(0, 2); j > 0; j-- {
+				switch r.Intn(3) {
+				case 0:
+					if !single {
+						pre = append(pre, lStmt{kind: "text", text: pick(r, []string{"a", "b."})})
+					}
+				case 1:
+					pre = append(pre, lStmt{kind: "let"})
+				default:
+					pre = append(pre, lStmt{kind: "fnlit"})
+				}
+			}
+			brk := lStmt{kind: "ctl", cond: lCond{kind: "true"}, act: "break", text: "P"}
+			if !single {
+				brk.form = r.Intn(3)
+			}
+			body = append(append(pre, brk), body...)
+			g.classes["break-in-map-loop"] = true
+		}
 		head := "v0"
 		if keyed {
 			head = "k0, v0"
@@ -469,6 +495,20 @@ func c08Run(b *core.B) {
 			continue
 		}
 		// reference
+		if it.isMap && mapBreak {
+			want := ""
+			if len(it.elems) > 0 {
+				o, _ := loopBody(body, it.elems[0], false)
+				want = o
+				if !single {
+					want = "⟦" + o
+				}
+			}
+			if res.Out != want {
+				b.Violate("wrong-map-iterations|break-in-map-loop", fmt.Sprintf("an unconditional break must end the loop after one iteration: want %q, got %q", want, res.Out))
+			}
+			continue
+		}
 		if it.isMap {
 			want := []string{}
 			for _, e := range it.elems {
